@@ -1,4 +1,5 @@
 import OnlVerif.Lemmas.Wire
+import OnlVerif.Lemmas.GenWire
 /-!
 # C10 — a wire delays each packet by its drawn delay, keeps order, loses only by rate
 
@@ -256,6 +257,40 @@ theorem cable_projection (c : WireCfg ℚ) (as : List (CableAct ℚ)) (s s' : Ca
         refine ⟨⟨entered (.tick t) p1 ++ i1, left p1 ++ o1, ?_⟩, ⟨entered (.tick t) p2 ++ i2, left p2 ++ o2, ?_⟩⟩
         · simp only [Cable.proj1, runActs, e1, r1]
         · simp only [Cable.proj2, runActs, e2, r2]
+
+/-! ### The source, re-translated on every run, *is* the model (bridge theorems)
+
+`Generated/Wire.lean` is rewritten by `py2lean` from the current `onl/netdev/wire.py` before this file is compiled: `put`, and
+one round of the server generator `run`, split at its `yield env.timeout(delay - queued_time)`.  `GenWire.wireObj` encodes a
+model state as the Python object (`out` attached); `GenWire.WireAgrees` says what a burst of the model's server leaves:
+asleep in the yield for the model's timeout / round complete with one more `out.put` / round complete without (discarded). -/
+
+/-- **`Wire.put` as written in the source is the model's `admitPkt`**: one more packet counted, `packet.current_time =
+self.env.now` (checked structurally by the translator, counted as `eff_stamp`), one `self.store.put(packet)`. -/
+theorem wire_put_generated_eq_model (c : WireCfg ℚ) (d : WireSt ℚ) (puts outs stamps ra ya : Nat) (ydt now : ℚ) (w : Nat)
+    (p : Pkt ℚ) :
+    Gen.Wire.put (GenWire.wireObj c d puts outs stamps ra ya ydt) =
+      GenWire.wireObj c (admitPkt d now w p).1 (puts + 1) outs (stamps + 1) ra ya ydt :=
+  GenWire.wire_put_eq c d puts outs stamps ra ya ydt now w p
+
+/-- **A round of `Wire.run` as written in the source is the model's `onResume` / `onFire`**: with loss draw `x` and delay
+`y`, the translated code from the `get` on discards the packet iff `loss_rate` is truthy and `x < loss_rate`, else sleeps
+`y - (now - current_time)` iff that is positive, else forwards at once — exactly as `Wire.onResume`; and after the sleep it
+forwards — as `Wire.onFire`.  (A flipped comparison, `delay + queued_time`, a draw taken when `loss_rate` is unset make
+this fail to compile.) -/
+theorem wire_run_generated_eq_model (c : WireCfg ℚ) (d : WireSt ℚ) (puts outs stamps ya : Nat) (ydt now x y : ℚ) (k : Nat)
+    (p : Pkt ℚ) :
+    GenWire.WireAgrees c (Gen.Wire.run_resume (GenWire.wireObj c d puts outs stamps 0 ya ydt) now p.ctime x y)
+      (onResume c d now x y p) puts outs stamps ∧
+    GenWire.WireAgrees c (Gen.Wire.run_after_1 (GenWire.wireObj c d puts outs stamps 0 ya ydt) now p.ctime x y)
+      (onFire d now k p) puts outs stamps :=
+  ⟨GenWire.wire_resume_agrees c d puts outs stamps ya ydt now x y p,
+   GenWire.wire_after_wait_agrees c d puts outs stamps ya ydt now x y k p⟩
+
+/-- the translated round on a concrete wire: loss rate 1/2, draw 3/4 (kept), arrived at 1, now 2, delay 5 → sleeps 4 -/
+example : (Gen.Wire.run_resume (GenWire.wireObj { lossRate := some (1 / 2) } (Wire.st0 0) 1 0 1 0 0 0) 2 1 (3 / 4) 5).yield_dt = 4 ∧
+    (Gen.Wire.run_resume (GenWire.wireObj { lossRate := some (1 / 2) } (Wire.st0 0) 1 0 1 0 0 0) 2 1 (1 / 4) 5).yield_at = 0 := by
+  decide +kernel
 
 /-! ### non-vacuity -/
 
